@@ -118,6 +118,9 @@ func TestWorker(t *testing.T) {
 		}
 		p := profiles[rf.Profile]
 		res := RunOne(t, p, rf.RunSeed, rf.World, rf.Trace, rf.UseTrace, os.Getenv("VERIF_LOG") != "")
+		if p.Name == "C11" {
+			c11Translate(res)
+		}
 		if os.Getenv("VERIF_LOG") != "" {
 			for _, l := range res.sim.Log {
 				fmt.Println("LOG", l)
